@@ -14,6 +14,7 @@ DESIGN.md section 2.1; every instance is recorded in `Result.drops`.
       @loop K ... @end                   invariant/decreases spliced before the body of the K-th loop (1-based)
       @at before|after "TOKENS" ... @end proof text spliced before/after first occurrence of TOKENS in the body
       @closure K |args| -> (r: T) ... @end   re-bracket K-th closure with a contract (A2)
+      @nested NAME ret=r ... @end            contract for a fn item nested in the body (A1/A5 applied to it)
   @struct FILE :: NAME [fields=a,b,c] [attr=TEXT]
   @enum FILE :: NAME [attr=TEXT]
   @const [FILE ::] NAME [cfg=TEXT]
@@ -258,6 +259,7 @@ class FnSpec:
         self.loops = {}
         self.ats = []
         self.closures = {}
+        self.nested = {}
         self.desugars = []
         self.etas = []
         self.default_from = None
@@ -398,6 +400,12 @@ def parse_vspec(path):
                     k, _, sig = r2.partition(' ')
                     text, i = block(i + 1)
                     fs.closures[int(k)] = (sig.strip(), text)
+                elif h2 == '@nested':
+                    # @nested NAME ret=r ... @end : contract for a fn item nested in the body (A1 + A5 on the nested item)
+                    nm, _, rest = r2.partition(' ')
+                    m = re.match(r'ret=(\w+)', rest.strip())
+                    text, i = block(i + 1)
+                    fs.nested[nm] = (m.group(1) if m else None, text)
                 else:
                     raise Undecided('%s:%d: unknown directive %s' % (path, i + 1, h2))
             i += 1
@@ -881,6 +889,28 @@ class Extractor:
                     inner = '{ ' + body[expr_s:expr_e] + ' }'
                 new = sig + '\n' + text + '\n' + inner
                 inserts.append((toks[k].start, ('REPLACE', expr_e, new), 1))
+        for nm, (ret, text) in fs.nested.items():
+            hit = None
+            for k in range(len(toks) - 2):
+                if toks[k].text == 'fn' and toks[k + 1].text == nm and toks[k + 2].text in ('(', '<'):
+                    hit = k
+                    break
+            if hit is None:
+                raise Undecided('lost anchor: nested fn %s in %s' % (nm, where))
+            k = hit + 2
+            if toks[k].text == '<':
+                raise Undecided('nested generic fn %s in %s is not supported' % (nm, where))
+            k = match_close(toks, k) + 1
+            b = k
+            while toks[b].text != '{':
+                if toks[b].text in ('(', '['):
+                    b = match_close(toks, b)
+                b += 1
+            if toks[k].text == '->' and ret:
+                ty = body[toks[k + 1].start:toks[b - 1].end]
+                inserts.append((toks[k].start, ('REPLACE', toks[b - 1].end, '-> (%s: %s)\n%s\n' % (ret, ty, text)), 1))
+            else:
+                inserts.append((toks[b].start, '\n' + text + '\n', 1))
         inserts.sort(key=lambda x: (x[0], x[2]))
         segs = []
         pos = 0
